@@ -103,6 +103,8 @@ CouponHashSet<A>* CouponHashSet<A>::newSet(const void* bytes, size_t len, const 
 
   ChsAlloc chsa(allocator);
   CouponHashSet<A>* sketch = new (chsa.allocate(1)) CouponHashSet<A>(lgK, tgtHllType, allocator);
+  typedef std::unique_ptr<CouponHashSet<A>, std::function<void(HllSketchImpl<A>*)>> coupon_hash_set_ptr;
+  coupon_hash_set_ptr ptr(sketch, sketch->get_deleter());
 
   if (compactFlag) {
     const uint8_t* curPos = data + hll_constants::HASH_SET_INT_ARR_START;
@@ -117,9 +119,10 @@ CouponHashSet<A>* CouponHashSet<A>::newSet(const void* bytes, size_t len, const 
     std::memcpy(sketch->coupons_.data(),
                 data + hll_constants::HASH_SET_INT_ARR_START,
                 couponsInArray * sizeof(uint32_t));
+    sketch->checkCouponCount();
   }
 
-  return sketch;
+  return ptr.release();
 }
 
 template<typename A>
@@ -174,6 +177,7 @@ CouponHashSet<A>* CouponHashSet<A>::newSet(std::istream& is, const A& allocator)
     sketch->couponCount_ = couponCount;
     // for stream processing, read entire list so read pointer ends up set correctly
     read(is, sketch->coupons_.data(), sketch->coupons_.size() * sizeof(uint32_t));
+    sketch->checkCouponCount();
   } 
 
   if (!is.good())
